@@ -13,11 +13,16 @@
     bytes (C03_reading_unique). The name readers return the labels of the policy name they are
     pointed at (C03_copy_name_labels, C03_name_text).
 
-    Not covered by a theorem: the OPT-skipping walk, the question cursor and the EDNS option cursor
-    (decided on every run by the correspondence and the independent reference decoder). *)
+    The OPT-skipping walk (C03_walks) visits exactly the records of that reading whose type is not
+    OPT, with the same views - in the answer and authority sections that is every record - and its two
+    debug assertions cannot fire; the question cursor (C03_question_cursor) yields one item at offset
+    12 whose name, type and class are the declarative decoding of the question, then stops.
+
+    Not covered by a theorem: the EDNS option cursor (decided on every run by the correspondence and
+    the independent reference decoder). *)
 From DV Require Import Model.Base Model.NameCheck Model.Parser Model.Header Model.Readers
   Spec.NameSpec Spec.PacketSpec Spec.RecordSpec
-  Proofs.Hoare Proofs.ParserTotal Proofs.ParserInv Proofs.ReadersAgree Proofs.ReadersLabels Proofs.WalkValues.
+  Proofs.Hoare Proofs.ParserTotal Proofs.ParserInv Proofs.ReadersAgree Proofs.ReadersLabels Proofs.WalkValues Proofs.WalkSkip.
 
 Theorem C03_skip_name_agrees : forall (p : bytes) (off e : nat),
   check_compressed_name p off = Ok e -> e < length p -> skip_name p off = Ok e.
@@ -66,6 +71,31 @@ Theorem C03_walk_values : forall p v, bytes_ok p -> parse p = Ok v ->
     records_at p e2 lr (length p) /\ length lr = N.to_nat ar /\ walk_views v SAdditional = Ok (map (view_of p) lr).
 Proof. exact walk_views_spec. Qed.
 Print Assumptions C03_walk_values.
+
+Theorem C03_walks : forall p v, bytes_ok p -> parse p = Ok v ->
+  exists an ns ar qe e1 e2 la ln lr,
+    hdr_ancount p = Ok an /\ hdr_nscount p = Ok ns /\ hdr_arcount p = Ok ar /\ cname p 12 qe /\
+    records_at p (qe + 4) la e1 /\ length la = N.to_nat an /\
+    records_at p e1 ln e2 /\ length ln = N.to_nat ns /\
+    records_at p e2 lr (length p) /\ length lr = N.to_nat ar /\
+    forallb non_opt la = true /\ forallb non_opt ln = true /\ opt_ok false lr /\
+    walk_views v SAnswer = Ok (map (view_of p) la) /\ walk_views_skip v SAnswer = Ok (map (view_of p) la) /\
+    walk_views v SNameServers = Ok (map (view_of p) ln) /\ walk_views_skip v SNameServers = Ok (map (view_of p) ln) /\
+    walk_views v SAdditional = Ok (map (view_of p) lr) /\
+    walk_views_skip v SAdditional = Ok (map (view_of p) (filter non_opt lr)).
+Proof. exact walks_spec. Qed.
+Print Assumptions C03_walks.
+
+Theorem C03_question_cursor : forall p v, bytes_ok p -> parse p = Ok v ->
+  exists ls qe t c it,
+    cname_l p 12 ls qe /\ u16_at p qe t /\ u16_at p (qe + 2) c /\
+    q_next v (it_new SQuestion) = Ok (Some it) /\ it_offset it = Some 12 /\ it_name_end it = qe /\
+    it_copy_raw_name v it = Ok (wire_of_labels ls, length (wire_of_labels ls)) /\
+    it_name v it = Ok (ascii_lowercase (dotted ls)) /\
+    it_rr_type v it = Ok t /\ it_rr_class v it = Ok c /\
+    q_next v it = Ok None.
+Proof. exact question_cursor_spec. Qed.
+Print Assumptions C03_question_cursor.
 
 Theorem C03_reading_unique : forall p off l e, records_at p off l e ->
   forall l' e', records_at p off l' e' -> length l = length l' -> l = l' /\ e = e'.
